@@ -60,18 +60,63 @@ def enclosing_if_tests(par, node):
     return out
 
 
+_ZE_STATES = {}
+
+
+def _resize_states(fn_node):
+    """condition clauses (rsx.flow) known at every  X.resize(..)  call of the function"""
+    key = id(fn_node)
+    if key not in _ZE_STATES:
+        from rsx.flow import MustFlow as _MF
+        states = {}
+
+        class _F(_MF):
+            def visit(self, node, state):
+                for c in ast.walk(node):
+                    if isinstance(c, ast.Call) and isinstance(c.func, ast.Attribute) and c.func.attr == 'resize':
+                        states[id(c)] = state
+        body = fn_node.body
+        try:
+            _F().run(body)
+        except AnalysisError:
+            states = {}
+        _ZE_STATES[key] = (fn_node, states)
+    return _ZE_STATES[key][1]
+
+
 def is_zero_extension(par, eff):
-    """M.resize(..) directly guarded by  M.shape[1] < X   or   X > M.shape[1]."""
+    """M.resize((rows, cols)) reached only where the new column count is known to exceed the current
+    one (M.shape[1] < cols, in any spelling the condition clauses normalise: `cols > M.shape[1]`,
+    `not M.shape[1] >= cols`, the else-arm of the opposite test under `!=`, a hoisted width):
+    appending zero columns does not change the function the matrix denotes."""
     if eff.kind != 'call:resize':
         return False
-    recv = ntext(eff.target) + '.shape[1]'
-    for test, in_body in enclosing_if_tests(par, eff.stmt if not isinstance(eff.stmt, ast.expr) else eff.node):
-        if not in_body or not isinstance(test, ast.Compare) or len(test.ops) != 1:
-            continue
-        l, r = ntext(test.left), ntext(test.comparators[0])
-        if (l == recv and isinstance(test.ops[0], ast.Lt)) or (r == recv and isinstance(test.ops[0], ast.Gt)):
-            return True
+    from rsx.flow import holds
+    call = eff.node
+    if not isinstance(call, ast.Call):
         return False
+    cur = call
+    while id(cur) in par and not isinstance(cur, (ast.FunctionDef, ast.AsyncFunctionDef)):
+        cur = par[id(cur)]
+    if not isinstance(cur, (ast.FunctionDef, ast.AsyncFunctionDef)):
+        return False
+    st = _resize_states(cur).get(id(call))
+    if st is None:
+        return False
+    args = call.args
+    if len(args) == 1 and isinstance(args[0], (ast.Tuple, ast.List)) and len(args[0].elts) == 2:
+        cols = args[0].elts[1]
+    elif len(args) == 2:
+        cols = args[1]
+    else:
+        return False
+    m = ntext(eff.target)
+    c = ntext(cols)
+    for w in (m + '.shape[1]', m + '.shape[-1]'):
+        if holds(st, '%s < %s' % (w, c)):
+            return True
+        if holds(st, '%s < %s' % (c, w), False) and holds(st, '%s == %s' % (w, c), False):
+            return True
     return False
 
 
